@@ -48,7 +48,8 @@ def demo(d):
 
 def tests():
     for attempt in range(3):
-        r = sh('cd /repo && %s -m pytest -q -p no:cacheprovider --timeout=900 2>&1 | tail -3' % PY, timeout=900)
+        # private network namespace: the MLLP tests bind fixed ports
+        r = sh("unshare -n sh -c 'ip link set lo up; cd /repo && %s -m pytest -q -p no:cacheprovider --timeout=900 2>&1 | tail -3'" % PY, timeout=900)
         if 'Address already in use' not in r.stdout and ' error' not in r.stdout:
             break
         time.sleep(5)
